@@ -18,6 +18,7 @@ CarrierMeta ==
    Grp     |-> << [name |-> "items", many |-> TRUE, decl |-> "Def"] >>,
    Box     |-> << [name |-> "inner", many |-> FALSE, decl |-> "Cell"] >>,
    Slot    |-> << [name |-> "val", many |-> FALSE, decl |-> "Value"] >>,
+   Bag     |-> << [name |-> "vals", many |-> TRUE, decl |-> "Value"] >>,
    Plain   |-> << >>,
    Cell    |-> << >>, DefA |-> << >>, DefB |-> << >>, Use |-> << >>, UseList |-> << >>]
 
@@ -29,5 +30,5 @@ Allowed(decl) ==
     [] decl = "Pkg"    -> {"Pkg"}
     [] decl = "Note"   -> {"Note"}
     [] decl = "Value"  -> {"Plain", "Cell"}      \* Value: Tag | Cell;  Tag is a match rule
-    [] decl = "Elem"   -> {"Pkg", "Grp", "Box", "Slot", "DefA", "DefB", "Use", "UseList"}
+    [] decl = "Elem"   -> {"Pkg", "Grp", "Box", "Slot", "Bag", "DefA", "DefB", "Use", "UseList"}
 =============================================================================
